@@ -30,6 +30,9 @@ def run(ctx):
     ctx.assumptions = ["socket.recv(n) returns between 1 and n bytes, b'' only at end of stream, raises socket.timeout on silence",
                        "end-of-stream behaviour is outside the property (reported as NOTICE only)"]
     reader_rules(ctx, R)
+    # the buffer belongs to one connection: a new one does not start with the previous one's leftovers (A8 of C10)
+    from .c10 import a8
+    a8(ctx, R)
 
 
 def reader_rules(ctx, R):
